@@ -99,9 +99,12 @@ def gen_cases(rng, n):
             yield ("lstripChars", "std.lstripChars(%s, %s)" % (J(s), J(t)), s.lstrip(t) if t else s)
             yield ("rstripChars", "std.rstripChars(%s, %s)" % (J(s), J(t)), s.rstrip(t) if t else s)
         elif fam == 10:
-            w = "".join(rng.choice(TRIM_WS + "ab") for _ in range(rng.randint(0, 4)))
-            w2 = "".join(rng.choice(TRIM_WS + "ab") for _ in range(rng.randint(0, 4)))
+            # other Unicode white space is NOT in std.trim's list and must stay
+            other_ws = "\u000b\u001c\u1680\u2000\u2003\u200a\u2028\u2029\u202f\u205f\u3000\ufeff\u200b"
+            w = "".join(rng.choice(TRIM_WS + "ab" + other_ws) for _ in range(rng.randint(0, 4)))
+            w2 = "".join(rng.choice(TRIM_WS + "ab" + other_ws) for _ in range(rng.randint(0, 4)))
             yield ("trim", "std.trim(%s)" % J(w + s + w2), (w + s + w2).strip(TRIM_WS))
+            yield ("trim_eq_stripChars", "local t = %s; std.trim(t) == std.stripChars(t, %s)" % (J(w + s + w2), J(TRIM_WS)), True)
         elif fam == 11:
             yield ("asciiUpper", "std.asciiUpper(%s)" % J(s), up(s))
             yield ("asciiLower", "std.asciiLower(%s)" % J(s), low(s))
